@@ -151,12 +151,12 @@ type c20Work struct {
 }
 
 type c20Result struct {
-	calls     int
-	history   []simos.Op
-	err       error
-	returned  bool
-	crashed   bool
-	handleFn  string
+	calls    int
+	history  []simos.Op
+	err      error
+	returned bool
+	crashed  bool
+	handleFn string
 }
 
 var c20FaultKinds = []simos.Fault{
@@ -643,7 +643,7 @@ func init() {
 	register(&Prop{
 		ID: "C20", Level: "fault_enumeration", Variant: "I", Design: "DESIGN.md §5 C20",
 		Rule: "Each run draws an upload (.dsc or .changes handle, 0..6 referenced files of 0..200 KB, listed names plain / with sub/, ./, ../, ../../ components / absolute / the control file's own name), an operation (Copy, Move, Remove), a destination state (directory, missing, regular file, optionally with stale files), one or two mounts (EXDEV), an optional queue-watcher task and an optional unrelated second upload, and executes it on the simulated file system: first fault-free (recording the uploader's call trace of length L), then with one fault at a chosen call: errno return (EIO, ENOSPC, EACCES), short write/read, crash before the call, crash after the call. The thorough tier executes every call index 1..L x every fault kind for each sampled workload. Invariants are evaluated after EVERY file-system call (order, remove order), by the watcher task, and on the final tree (atomic failure, success postconditions, confinement of every path the uploader touched).",
-		Run: runC20, Sweep: true, SweepQuick: 48,
+		Run:  runC20, Sweep: true, SweepQuick: 48,
 		QuickRuns: 300000, QuickSecs: 40, ThoroughRuns: 60000, ThoroughSecs: 1200,
 		Components: map[string]interface{}{
 			"real_instrumented": []string{"pault.ag/go/debian/control (ParseDscFile, ParseChangesFile, DSC/Changes.Copy/Move/Remove, AbsFiles)", "pault.ag/go/debian/internal (Copy)"},
